@@ -18,7 +18,8 @@ LEVEL = dict(
 def keys_read(F, fn):
     out = set()
     for b in F.fns(fn):
-        for body in F.with_closures(b):
+        # the function with its closures and the private helpers of the same file it hands the work to
+        for body in lib.local_scope(F, b):
             for c in body.calls:
                 if c.local and re.search(r"Dictionary::(get|get_deref|has|get_mut)$|Document::get_dict_in_dict$", lib.canon_callee(F, c)):
                     for a in c.args[1:]:
@@ -132,7 +133,9 @@ def _run(ctx):
     # zero-page fix-up: the full walk is not conditional on page state
     rf = F.fn("Document::recursive_fix_pages")
     rec = [c for c in rf.calls if c.local and c.name == rf.path]
-    full = [c for c in rec if rf.oname(c.args[2], 2) == "first"]
+    # the recursive call that hands on the function's own bool parameter (`first`), wherever it stands in the list
+    bj = [i for i in range(1, rf.argc + 1) if rf.lty(i) == "bool"]
+    full = [c for c in rec if len(bj) == 1 and lib.same_origin(F, rf, c.args[bj[0] - 1], rf, bj[0])]
     okw = len(full) == 1
     if okw:
         gs = inv.rendered_guards(rf, full[0].bb)
